@@ -401,9 +401,9 @@ static CMDResult CMD_EntryAddress(Boolean Negate, char const* pArg) {
                 AddInvSymbol(Str, VectorAddress);
             }
         } else {
-            Address = ConstLongInt(pArg, &OK, 10);
+            Address = ConstLongInt(Arg, &OK, 10);
             if (!OK) {
-                return ArgError(Num_ErrMsgInvalidNumericValue, pArg);
+                return ArgError(Num_ErrMsgInvalidNumericValue, Arg);
             }
         }
     } else {
